@@ -233,6 +233,35 @@ def run(ctx: Ctx) -> int:
     ok = bool(tests_) and all(_is_stripped(c.func.value) for c in tests_) and bool(loads_)
     ctx.oblige("C01.a", ok, tests_[0] if tests_ else llod, "the JSON fallback of non-JSON-superset modes looks at the stripped text" if ok else "the JSON fallback tests the raw text for [..] / {..}: a *.json sub-file written by save (it ends with a newline) is no longer recognised under parser modes whose loader is not a JSON superset (toml, custom)", fn=llod, construct="json fallback on stripped text")
 
+    # serialising a class spec: the `dict_kwargs` entry that adapt_class_type pops off the spec is put back on every
+    # path of the serialising branch (a spec of a class that only takes **kwargs has nothing else)
+    act1 = ctx.func("_typehints:adapt_class_type")
+    g1 = ctx.cfg(act1)
+    pops1 = [s_ for s_ in walk_local(act1) if isinstance(s_, ast.Assign) and isinstance(s_.targets[0], ast.Name) and any(call_leaf(c) == "pop" and c.args and const_str(c.args[0]) == "dict_kwargs" for c in calls_in(s_.value))]
+    ctx.need(len(pops1) == 1, "adapt_class_type: <dict_kwargs> = ... value.pop('dict_kwargs', ...)")
+    dk = pops1[0].targets[0].id
+    spec = root_name(next(c for c in calls_in(pops1[0].value) if call_leaf(c) == "pop").func)
+    puts = [s_ for s_ in walk_local(act1) if isinstance(s_, ast.Assign) and any(isinstance(t, ast.Subscript) and root_name(t.value) == spec and const_str(t.slice) == "dict_kwargs" for t in s_.targets)]
+    ser_ifs = [n_ for n_ in walk_local(act1) if isinstance(n_, ast.If) and isinstance(n_.test, ast.Name) and n_.test.id == "serialize"]
+    ctx.need(puts and ser_ifs, "adapt_class_type: `if serialize:` and value['dict_kwargs'] = ...")
+    starts1 = [t for (a_, t, lab) in g1.branch_edges(ser_ifs[0].test, "t")]
+    removed1 = set()
+    for n_ in walk_local(act1):
+        if isinstance(n_, ast.If) and isinstance(n_.test, ast.Name) and n_.test.id == dk:
+            removed1 |= g1.branch_edges(n_.test, "f")
+    rets1 = [r for r in walk_local(act1) if isinstance(r, ast.Return)]
+    ok = g1.must_pass(g1.cn(puts), starts1, g1.cn(rets1) + [g1.exit], exclude_labels={"e"}, removed_edges=removed1)
+    path1 = None if ok else g1.find_path(starts1, g1.cn(rets1) + [g1.exit], removed=g1.cn(puts), exclude_labels={"e"})
+    ctx.oblige(
+        "C01.f",
+        ok,
+        puts[0],
+        f"on the serialising branch the popped `{dk}` is put back into the spec before every return" if ok else f"on the serialising branch a return is reachable without putting `{dk}` back: the dumped spec of a class that only takes **kwargs (empty init_args) loses its dict_kwargs, so the re-parsed configuration builds the object without them",
+        fn=act1,
+        construct="dict_kwargs restored when serialising",
+        details={"path": g1.describe_path(path1)},
+    )
+
     # a dump header is a comment: it is only written for formats whose readers accept that comment syntax, and
     # the prefix is chosen by the FORMAT NAME (json_indented and jsonnet share one dumper function)
     cp = None
